@@ -26,6 +26,7 @@
 #include <set>
 #include <thread>
 #include "vf.hpp"
+#include "crashnote.hpp"
 #include "dsched.hpp"
 #include <rapidcheck.h>
 
@@ -222,7 +223,7 @@ struct BufRunner {
 static Outcome run_buffer(int s1, int s2, int wrap, const std::vector<COp> &ops) {
     Outcome out; BufRunner r(s1, s2, wrap);
     std::string head = "B " + std::to_string(s1) + " " + std::to_string(s2) + " " + std::to_string(wrap);
-    out.text = ops_text(head, ops);
+    out.text = ops_text(head, ops); crashnote::set(out.text);
     for (size_t i = 0; i < ops.size(); i++)
         if (!r.apply(ops[i])) { out.err = "op #" + std::to_string(i) + " (" + ops[i].k + "): " + r.err; break; }
     if (out.err.empty() && !r.finish()) out.err = "final drain: " + r.err;
@@ -399,7 +400,7 @@ struct HeapRunner {
 
 static Outcome run_heap(int hs, const std::vector<COp> &ops) {
     Outcome out; HeapRunner r(hs);
-    out.text = ops_text("H " + std::to_string(hs), ops);
+    out.text = ops_text("H " + std::to_string(hs), ops); crashnote::set(out.text);
     for (size_t i = 0; i < ops.size(); i++)
         if (!r.apply(ops[i])) { out.err = "op #" + std::to_string(i) + " (" + ops[i].k + " " + std::to_string(ops[i].a) + "): " + r.err; break; }
     out.nheaps = (int)r.forest.size();
@@ -651,6 +652,7 @@ int main(int argc, char **argv) {
         if (err.empty()) { printf("REPLAY-PASS\n"); return 0; }
         printf("REPLAY-FAIL %s\n", err.c_str()); return 1;
     }
+    crashnote::install();
     if (mode == "stress") return run_stress(atoi(argv[2]), atol(argv[3]), atol(argv[4]));
     if (mode == "exhbuf") {          // exhbuf s1 s2 wrap L maxring maxdistance
         int s1 = atoi(argv[2]), s2 = atoi(argv[3]), wrap = atoi(argv[4]), L = atoi(argv[5]), mr = atoi(argv[6]), md = atoi(argv[7]);
@@ -703,7 +705,7 @@ int main(int argc, char **argv) {
                 }
             }
             c.sched = *rc::gen::container<std::vector<uint8_t>>(*rc::gen::resize(100, rc::gen::inRange<size_t>(0, 120)), rc::gen::arbitrary<uint8_t>());
-            std::string repr = c.repr(); g_conc_repr = &repr;
+            std::string repr = c.repr(); g_conc_repr = &repr; crashnote::set(repr);
             bool nt = false; std::map<std::string, int> lab;
             std::string e = run_conc(c, &nt, &lab);
             vf::note_case(repr, nt);
